@@ -472,15 +472,20 @@ def _():
     VR, V1, V2, e1, e2, Q1, Q2 = c['VR'], c['V1'], c['V2'], c['e1'], c['e2'], c['Q1'], c['Q2']
     sub = T._sub(Y, Q1)
     E1 = T.Eclo(V1, e1, Y); E2s = T.Eclo(V2, e2, T.single(c['q2'])); ER = T.Eclo(VR, e1, Y)
-    hit = z3.Exists([x], And(Select(c['F1'], x), Select(E1, x)))
+    hit = T.hitF(c['N1'].z, E1)
     Tt = T.U(E1, z3.If(hit, E2s, T.EMPTYA))
     in1 = ('E1-in-Q1', c['facts'] + [sub, T.Eclo_least(V1, e1, Y, Q1)], T._sub(E1, Q1))
     in2 = ('E2-in-Q2', c['facts'] + [T.Eclo_least(V2, e2, T.single(c['q2']), Q2)], T._sub(E2s, Q2))
-    le = ('R-le', c['facts'] + [sub, in1[2], in2[2], T.Eclo_least(VR, e1, Y, Tt)], T._sub(ER, Tt))
+    y = Const('y_', Atom)
+    closed = ForAll([x, y], Implies(And(Select(Tt, x), Select(Select(VR, T.mkKey2(x, e1)), y)), Select(Tt, y)))
+    cl1 = ('closed-hit', c['facts'] + [in1[2], in2[2], hit], closed)
+    cl2 = ('closed-nohit', c['facts'] + [in1[2], in2[2], Not(hit)], closed)
+    seed = ('seed', [], T._sub(Y, Tt))
+    le = ('R-le', [seed[2], closed, T.Eclo_least(VR, e1, Y, Tt)], T._sub(ER, Tt))
     ge1 = ('ge-1', c['facts'] + [sub, T.Eclo_least(V1, e1, Y, ER)], T._sub(E1, ER))
     ge2a = ('ge-2a', c['facts'] + [ge1[2], in1[2], hit], Select(ER, c['q2']))
     ge2 = ('ge-2', c['facts'] + [T.Eclo_least(V2, e2, T.single(c['q2']), ER), Implies(hit, Select(ER, c['q2']))], Implies(hit, T._sub(E2s, ER)))
-    return [c['wf'], in1, in2, le, ge1, ge2a, ge2] + ext_eq(ER, Tt, [le[2], ge1[2], ge2[2]])
+    return [c['wf'], in1, in2, cl1, cl2, seed, le, ge1, ge2a, ge2] + ext_eq(ER, Tt, [le[2], ge1[2], ge2[2]])
 
 
 @proof('nfax', 'Bcat-char')
@@ -519,7 +524,7 @@ def _():
     A = lambda w: z3.If(T.over(S1, w), T.NS(V1, e1, s1, w), T.EMPTYA)
     B = lambda w: T.Bcat(N1z, N2z, w)
     E2s = T.Eclo(V2, e2, s2)
-    hitw = lambda w: z3.Exists([x], And(Select(c['F1'], x), Select(T.Eclo(V1, e1, s1) if w is None else T.Eclo(V1, e1, T.move(V1, A(w), a)), x)))
+    hitw = lambda w: T.hitF(N1z, T.Eclo(V1, e1, s1) if w is None else T.Eclo(V1, e1, T.move(V1, A(w), a)))
     P = lambda w: Implies(T.over(SR, w), And(C(w) == T.U(A(w), B(w)), T._sub(A(w), Q1), T._sub(B(w), Q2)))
     facts = c['facts'] + [stb]
     # ---- base
@@ -530,19 +535,23 @@ def _():
     # ---- step
     ctx = facts + [P(w), T.over(SR, wa), c['em2'][2]]
     M1 = T.move(V1, A(w), a); M2 = z3.If(Select(S2, a), T.move(V2, B(w), a), T.EMPTYA)
-    m1 = ('step-move-1', ctx, And(T.move(VR, A(w), a) == M1, T._sub(M1, Q1), a != e1))
+    pre = ('step-pre', ctx, And(T._sub(A(w), Q1), T._sub(B(w), Q2), Select(SR, a), a != e1, C(w) == T.U(A(w), B(w))))
+    m1a = ext_eq(T.move(VR, A(w), a), M1, c['facts'] + [pre[2]], 'step-move-1-')
+    m1 = ('step-move-1', c['facts'] + [pre[2], m1a[1][2]], And(T.move(VR, A(w), a) == M1, T._sub(M1, Q1), a != e1))
     m2 = ('step-move-2', ctx, And(T.move(VR, B(w), a) == M2, T._sub(M2, Q2)))
-    mv = ('step-move', [P(w), T.over(SR, wa), m1[2], m2[2]], T.move(VR, C(w), a) == T.U(M1, M2))
-    e1_ = ('step-eclo-1', facts + [m1[2]], T.Eclo(VR, e1, M1) == T.U(T.Eclo(V1, e1, M1), z3.If(hitw(w), E2s, T.EMPTYA)))
+    mv = ('step-move', [pre[2], m1[2], m2[2]], T.move(VR, C(w), a) == T.U(M1, M2))
+    e1_ = ('step-eclo-1', [stb, m1[2]], T.Eclo(VR, e1, M1) == T.U(T.Eclo(V1, e1, M1), z3.If(hitw(w), E2s, T.EMPTYA)))
     e2_ = ('step-eclo-2', facts + [c['em2'][2], m2[2]], And(T.Eclo(VR, e1, M2) == T.Eclo(V2, e2, M2), T._sub(T.Eclo(V2, e2, M2), Q2)))
     ec = ('step-eclo', [mv[2], e1_[2], e2_[2]], C(wa) == T.U(T.U(T.Eclo(V1, e1, M1), z3.If(hitw(w), E2s, T.EMPTYA)), T.Eclo(V2, e2, M2)))
     a1 = ('step-A', facts + [T.over(SR, wa)], A(wa) == T.Eclo(V1, e1, M1))
     h1 = ('step-hit', facts + [a1[2], T.over(SR, wa)], hitw(w) == T.lang_b(N1z, wa))
     bb = ('step-B', [h1[2]], B(wa) == T.U(T.Eclo(V2, e2, M2), z3.If(hitw(w), E2s, T.EMPTYA)))
-    sb = ('step-sub', facts + [m1[2], e2_[2], a1[2], bb[2], T.Eclo_least(V1, e1, M1, Q1), T.Eclo_least(V2, e2, s2, Q2)], And(T._sub(A(wa), Q1), T._sub(B(wa), Q2)))
+    sb1 = ('step-sub-1', c['facts'] + [m1[2], T.Eclo_least(V1, e1, M1, Q1)], T._sub(T.Eclo(V1, e1, M1), Q1))
+    sb2 = ('step-sub-2', c['facts'] + [T.Eclo_least(V2, e2, s2, Q2)], T._sub(E2s, Q2))
+    sb = ('step-sub', [sb1[2], sb2[2], e2_[2], a1[2], bb[2]], And(T._sub(A(wa), Q1), T._sub(B(wa), Q2)))
     fin = ext_eq(C(wa), T.U(A(wa), B(wa)), [ec[2], a1[2], bb[2]], 'step-')
     stp = ('step', [fin[1][2], sb[2]], P(wa))
-    return [c['wf'], c['em2'], b0, b1, b2, base, m1, m2, mv, e1_, e2_, ec, a1, h1, bb, sb] + fin + [stp]
+    return [c['wf'], c['em2'], b0, b1, b2, base, pre] + m1a + [m1, m2, mv, e1_, e2_, ec, a1, h1, bb, sb1, sb2, sb] + fin + [stp]
 
 
 @proof('nfax', 'cat-lang')
@@ -564,6 +573,133 @@ def _():
     bwd = ('bwd', [accR[2], char, acc2[2], And(0 <= k, k <= T.wlen(w), T.lang_b(N1z, T.take(k, w)), T.lang_b(N2z, T.drop(k, w)))], T.acc_b(Rz, w))
     fin = ('final', [Implies(T.acc_b(Rz, w), fwd[2]), ForAll([k], Implies(And(0 <= k, k <= T.wlen(w), T.lang_b(N1z, T.take(k, w)), T.lang_b(N2z, T.drop(k, w))), T.acc_b(Rz, w)))], goal)
     return [c['wf'], selfem, inA, accR, ch, acc2, fwd, bwd, fin]
+
+
+def _star_setup():
+    N, R = _nfa_consts('N_', 'R_')
+    d = dict(N=N, R=R, VN=T.nfa_view(N), VR=T.nfa_view(R), e=T._eps(N), Q=rec_get(N, 'Q').z, Sg=rec_get(N, 'Sigma').z, q0=rec_get(N, 'q0').z, r0=rec_get(R, 'q0').z, F=rec_get(N, 'F').z)
+    d['st'] = T.star_struct(N, R)
+    d['wf'] = ('view-wf', [d['st']], T.view_wf(N))
+    d['facts'] = [d['st'], d['wf'][2]]
+    return d
+
+
+@proof('nfastar', 'star-eclo')
+def _():
+    c = _star_setup(); Nz = c['N'].z; Y = _S1; x = Const('x_', Atom)
+    VN, VR, e, Q = c['VN'], c['VR'], c['e'], c['Q']
+    sub = T._sub(Y, Q); s0 = T._s0(Nz)
+    EN = T.Eclo(VN, e, Y); E0 = T.Eclo(VN, e, s0); ER = T.Eclo(VR, e, Y)
+    hit = T._hit(Nz, EN)
+    Tt = T.U(EN, z3.If(hit, E0, T.EMPTYA))
+    in1 = ('EN-in-Q', c['facts'] + [sub, T.Eclo_least(VN, e, Y, Q)], T._sub(EN, Q))
+    in2 = ('E0-in-Q', c['facts'] + [T.Eclo_least(VN, e, s0, Q)], And(T._sub(E0, Q), Select(E0, c['q0'])))
+    y = Const('y_', Atom)
+    closed = ForAll([x, y], Implies(And(Select(Tt, x), Select(Select(VR, T.mkKey2(x, e)), y)), Select(Tt, y)))
+    cl1 = ('closed-hit', c['facts'] + [in1[2], in2[2], hit], closed)
+    cl2 = ('closed-nohit', c['facts'] + [in1[2], in2[2], Not(hit)], closed)
+    seed = ('seed', [], T._sub(Y, Tt))
+    le = ('R-le', [seed[2], closed, T.Eclo_least(VR, e, Y, Tt)], T._sub(ER, Tt))
+    ge1 = ('ge-1', c['facts'] + [sub, T.Eclo_least(VN, e, Y, ER)], T._sub(EN, ER))
+    ge2a = ('ge-2a', c['facts'] + [ge1[2], in1[2], hit], Select(ER, c['q0']))
+    ge2 = ('ge-2', c['facts'] + [T.Eclo_least(VN, e, s0, ER), Implies(hit, Select(ER, c['q0']))], Implies(hit, T._sub(E0, ER)))
+    return [c['wf'], in1, in2, cl1, cl2, seed, le, ge1, ge2a, ge2] + ext_eq(ER, Tt, [le[2], ge1[2], ge2[2]])
+
+
+@proof('nfastar', 'Sstar-char')
+def _():
+    N, = _nfa_consts('N_'); Nz = N.z
+    VN, e, Sg, F = T.nfa_view(N), T._eps(N), rec_get(N, 'Sigma').z, rec_get(N, 'F').z
+    wfh = T.s_nfa_wf(None, N).z
+    x, y, z, f = Consts('x_ y_ z_ f_', Atom); k, j = Consts('k_ j_', z3.IntSort()); w = Const('w_', Word); a = _a_; wa = Word.snoc(w, a)
+    s0 = T._s0(Nz); E0 = T.Eclo(VN, e, s0)
+    SL = lambda u: T.starL(Nz, u)
+    K = lambda k, w, x: And(0 <= k, k <= T.wlen(w), SL(T.take(k, w)), T.over(Sg, T.drop(k, w)), Select(T.NS(VN, e, s0, T.drop(k, w)), x))
+    S = lambda w: T.Sstar(Nz, w)
+    P = lambda w: ForAll([x], Select(S(w), x) == z3.Exists([k], K(k, w, x)))
+    base1 = ('base-fwd', [Select(S(Word.nil), x)], K(0, Word.nil, x))
+    base2 = ('base-bwd', [K(k, Word.nil, x)], Select(S(Word.nil), x))
+    base = ('base', [ForAll([x], Implies(Select(S(Word.nil), x), K(0, Word.nil, x))), ForAll([x, k], Implies(K(k, Word.nil, x), Select(S(Word.nil), x)))], P(Word.nil))
+    M = T.move(VN, S(w), a); EM = T.Eclo(VN, e, M); hit = T._hit(Nz, EM)
+    inner = lambda x: And(Select(Sg, a), Select(EM, x))                     # x is reached by continuing the current round
+    again = lambda x: And(Select(Sg, a), hit, Select(E0, x))                # a round has just been completed and a new one starts
+    unfold = ('step-unfold', [], Select(S(wa), x) == Or(inner(x), again(x)))
+    # continuing: some z in S(w) moves by a to y whose closure contains x; z comes with a split position k of w, which also splits wa
+    f2 = ('step-fwd-inner-1', [Select(Sg, a), K(k, w, z), Select(Select(VN, T.mkKey2(z, a)), y), Select(T.Eclo(VN, e, T.single(y)), x)], K(k, wa, x))
+    allf2 = ForAll([k, z, y, x], Implies(And(Select(Sg, a), K(k, w, z), Select(Select(VN, T.mkKey2(z, a)), y), Select(T.Eclo(VN, e, T.single(y)), x)), K(k, wa, x)))
+    f2b = ('step-fwd-inner', [P(w), inner(x), allf2], z3.Exists([k], And(K(k, wa, x), k <= T.wlen(w))))
+    innerK = ForAll([x], Implies(inner(x), z3.Exists([k], And(K(k, wa, x), k <= T.wlen(w)))))
+    # a completed round: some accepting f is reached by continuing, so wa is in the star language
+    lw = ('step-lang', [wfh, K(k, wa, f), k <= T.wlen(w), Select(F, f)], And(T.lang_b(Nz, T.drop(k, wa)), SL(T.take(k, wa)), k < T.wlen(wa)))
+    sw = ('step-star', [K(k, wa, f), k <= T.wlen(w), And(T.lang_b(Nz, T.drop(k, wa)), SL(T.take(k, wa)), k < T.wlen(wa))], SL(wa))
+    f3 = ('step-fwd-again', [innerK, again(x), ForAll([k, f], Implies(And(K(k, wa, f), k <= T.wlen(w), Select(F, f)), SL(wa)))], K(T.wlen(w) + 1, wa, x))
+    # backwards
+    b2 = ('step-bwd-inner', [P(w), K(k, wa, x), k <= T.wlen(w)], inner(x))
+    innerB = ForAll([x, k], Implies(And(K(k, wa, x), k <= T.wlen(w)), inner(x)))
+    b1a = ('step-bwd-last-1', [wfh, SL(wa)], z3.Exists([j, f], And(K(j, wa, f), j <= T.wlen(w), Select(F, f))))
+    b1 = ('step-bwd-last', [innerB, K(k, wa, x), k == T.wlen(w) + 1, Implies(SL(wa), z3.Exists([j, f], And(K(j, wa, f), j <= T.wlen(w), Select(F, f))))], again(x))
+    fin = ('step', [ForAll([x], Select(S(wa), x) == Or(inner(x), again(x))), innerK, ForAll([x], Implies(again(x), K(T.wlen(w) + 1, wa, x))),
+                    innerB, ForAll([x, k], Implies(And(K(k, wa, x), k == T.wlen(w) + 1), again(x)))], P(wa))
+    return [base1, base2, base, unfold, f2, f2b, lw, sw, f3, b2, b1a, b1, fin]
+
+
+@proof('nfastar', 'star-sim')
+def _():
+    c = _star_setup(); Nz, Rz = c['N'].z, c['R'].z
+    VN, VR, e, Q, Sg, r0 = c['VN'], c['VR'], c['e'], c['Q'], c['Sg'], c['r0']
+    x = Const('x_', Atom); w = Const('w_', Word); a = _a_; wa = Word.snoc(w, a)
+    stb = T.star_b(Nz, Rz); facts = c['facts'] + [stb]
+    s0 = T._s0(Nz); sr = T.single(r0); E0 = T.Eclo(VN, e, s0)
+    C = lambda w: T.NS(VR, e, sr, w); S = lambda w: T.Sstar(Nz, w)
+    top = lambda w: z3.If(w == Word.nil, sr, T.EMPTYA)
+    P = lambda w: Implies(T.over(Sg, w), And(C(w) == T.U(top(w), S(w)), T._sub(S(w), Q)))
+    # base: closure of the new initial state = itself + closure (in R) of N's initial state = itself + closure in N
+    ER0 = T.Eclo(VR, e, s0); Tt = T.U(sr, ER0)
+    b1 = ('base-sub', facts + [T.Eclo_least(VR, e, sr, Tt)], T._sub(T.Eclo(VR, e, sr), Tt))
+    b2a = ('base-sup0', facts, T._sub(s0, T.Eclo(VR, e, sr)))
+    b2b = ('base-sup1', [b2a[2], T.Eclo_least(VR, e, s0, T.Eclo(VR, e, sr))], T._sub(ER0, T.Eclo(VR, e, sr)))
+    b3 = ('base-R0', facts + [T.Eclo_least(VN, e, s0, Q)], And(ER0 == E0, T._sub(E0, Q)))
+    beq = ext_eq(C(Word.nil), T.U(top(Word.nil), S(Word.nil)), [b1[2], b2b[2], b3[2]], 'base-')
+    base = ('base', [beq[1][2], b3[2]], P(Word.nil))
+    # step
+    ctx = facts + [P(w), T.over(Sg, wa)]
+    M = T.move(VN, S(w), a)
+    m0 = ('step-move-top', facts + [Select(Sg, a)], T.move(VR, top(w), a) == T.EMPTYA)
+    pre = ('step-pre', ctx, And(T._sub(S(w), Q), Select(Sg, a), a != e, T.over(Sg, w), C(w) == T.U(top(w), S(w))))
+    m1a = ext_eq(T.move(VR, S(w), a), M, c['facts'] + [pre[2]], 'step-move-S-')
+    m1 = ('step-move-S', c['facts'] + [pre[2], m1a[1][2]], And(T.move(VR, S(w), a) == M, T._sub(M, Q)))
+    mv = ('step-move', [pre[2], m0[2], m1[2]], T.move(VR, C(w), a) == M)
+    AG = T._again(Nz, T._EN(Nz, M))
+    e1_ = ('step-eclo-1', [stb, m1[2]], T.Eclo(VR, e, M) == AG)
+    e2_ = ('step-eclo-2', [mv[2]], C(wa) == T.Eclo(VR, e, M))
+    e3_ = ('step-eclo-3', [pre[2]], S(wa) == AG)
+    ec = ('step-eclo', [e1_[2], e2_[2], e3_[2]], C(wa) == S(wa))
+    sb = ('step-sub', facts + [m1[2], T.over(Sg, wa), T.Eclo_least(VN, e, M, Q), T.Eclo_least(VN, e, s0, Q)], T._sub(S(wa), Q))
+    feq = ext_eq(C(wa), T.U(top(wa), S(wa)), [ec[2]], 'step-')
+    stp = ('step', [feq[1][2], sb[2]], P(wa))
+    return [c['wf'], b1, b2a, b2b, b3] + beq + [base, m0, pre] + m1a + [m1, mv, e1_, e2_, e3_, ec, sb] + feq + [stp]
+
+
+@proof('nfastar', 'star-lang')
+def _():
+    c = _star_setup(); Nz, Rz = c['N'].z, c['R'].z
+    VN, VR, e, Q, Sg, r0, F = c['VN'], c['VR'], c['e'], c['Q'], c['Sg'], c['r0'], c['F']
+    x, f = Consts('x_ f_', Atom); w = Const('w_', Word); k = Const('k_', z3.IntSort())
+    stb = T.star_b(Nz, Rz); facts = c['facts'] + [stb, T.over(Sg, w)]
+    s0 = T._s0(Nz); S = T.Sstar(Nz, w)
+    K = lambda k, x: And(0 <= k, k <= T.wlen(w), T.starL(Nz, T.take(k, w)), T.over(Sg, T.drop(k, w)), Select(T.NS(VN, e, s0, T.drop(k, w)), x))
+    inQ = ('S-in-Q', facts + [T.embed_b(VN, e, VN, e, Q, Sg)], T._sub(S, Q))
+    selfem = ('self-embed', c['facts'], T.embed_b(VN, e, VN, e, Q, Sg))
+    nh = ('nhat-R', facts, T.Nhat(VR, e, r0, w) == T.U(z3.If(w == Word.nil, T.single(r0), T.EMPTYA), S))
+    accR = ('acc-R', c['facts'] + [inQ[2], nh[2]], T.acc_b(Rz, w) == Or(w == Word.nil, z3.Exists([f], And(Select(F, f), Select(S, f)))))
+    char = ('char', facts, ForAll([x], Select(S, x) == z3.Exists([k], K(k, x))))
+    accN = ('acc-N', [], ForAll([k], T.acc_b(Nz, T.drop(k, w)) == z3.Exists([f], And(Select(F, f), Select(T.NS(VN, e, s0, T.drop(k, w)), f)))))
+    fwd1 = ('fwd-1', [K(k, f), Select(F, f), accN[2], T.over(Sg, w)], T.starL(Nz, w))
+    fwd = ('fwd', [accR[2], char[2], T.acc_b(Rz, w), ForAll([k, f], Implies(And(K(k, f), Select(F, f)), T.starL(Nz, w)))], T.starL(Nz, w))
+    bwd1 = ('bwd-1', [T.starL(Nz, w), w != Word.nil, accN[2], T.over(Sg, w)], z3.Exists([k, f], And(K(k, f), Select(F, f))))
+    bwd = ('bwd', [accR[2], char[2], T.starL(Nz, w), Implies(And(T.starL(Nz, w), w != Word.nil), z3.Exists([k, f], And(K(k, f), Select(F, f))))], T.acc_b(Rz, w))
+    fin = ('final', [Implies(T.acc_b(Rz, w), T.starL(Nz, w)), Implies(T.starL(Nz, w), T.acc_b(Rz, w))], T.acc_b(Rz, w) == T.starL(Nz, w))
+    return [c['wf'], selfem, inQ, nh, accR, char, accN, fwd1, fwd, bwd1, bwd, fin]
 
 
 def int_ind(P, lo=0):
@@ -590,7 +726,7 @@ def prove_lemmas(theories, timeout=10):
     """-> list of (name, status, log); a lemma may use the def/lfp/assumed axioms of the selected theories and earlier lemmas"""
     from .smt import discharge
     obls = []
-    order = ['word', 'wordx', 'naming', 'dfa', 'nfa', 'dfax', 'nfax', 'regexp', 'tm', 'pda', 'cfg', 'iso', 'subset']
+    order = ['word', 'wordx', 'naming', 'dfa', 'nfa', 'dfax', 'nfax', 'regexp', 'nfastar', 'tm', 'pda', 'cfg', 'iso', 'subset']
     ths = [t for t in order if t in theories] + [t for t in theories if t not in order]
     from .verify import DEPENDS
     def closure(t, out=None):
